@@ -1,6 +1,7 @@
 package main
 
 import (
+	"github.com/biogo/biogo/io/seqio"
 	"errors"
 	"bytes"
 	"fmt"
@@ -59,6 +60,9 @@ func genName(rng *rand.Rand) string {
 	if rng.Intn(12) == 0 {
 		n = 0
 	}
+	if rng.Intn(50) == 0 { // a name that ends next to a multiple of a 4096-byte read buffer (one prefix byte precedes it)
+		n = []int{4090, 8186}[rng.Intn(2)] + rng.Intn(11)
+	}
 	b := make([]byte, n)
 	special := ">@+#;:|=~!"
 	for i := range b {
@@ -92,6 +96,9 @@ func genDesc(rng *rand.Rand) string {
 	nw := rng.Intn(5)
 	if nw == 0 {
 		return ""
+	}
+	if rng.Intn(25) == 0 { // a header line several read buffers long, with blanks all along it
+		nw = 700 + rng.Intn(1200)
 	}
 	var sb strings.Builder
 	for i := 0; i < nw; i++ {
@@ -291,9 +298,22 @@ type chunkReader struct {
 	eof     bool
 	eofFlag int32
 	maxLen  int
+	failing bool // the source fails (every read from offset failAt on returns errSourceFault) instead of ending
+	failAt  int
 }
 
+// errSourceFault is what a chunkReader with failAt set returns, from that offset on, instead of data.
+var errSourceFault = errors.New("verif: injected read failure")
+
 func (c *chunkReader) Read(p []byte) (int, error) {
+	if c.failing && c.pos >= c.failAt {
+		c.eof = true
+		atomic.StoreInt32(&c.eofFlag, 1)
+		return 0, errSourceFault
+	}
+	if c.failing && c.pos < c.failAt && len(p) > c.failAt-c.pos {
+		p = p[:c.failAt-c.pos]
+	}
 	if c.pos >= len(c.data) {
 		c.eof = true
 		atomic.StoreInt32(&c.eofFlag, 1)
@@ -324,7 +344,11 @@ func newSrc(rng *rand.Rand, data []byte) *chunkReader {
 
 // readAllFasta reads every record from data.
 func readAllFasta(rng *rand.Rand, data []byte, al alphabet.Alphabet, maxCalls int) ([]seq.Sequence, error, int) {
-	rd := fasta.NewReader(newSrc(rng, data), linear.NewSeq("", nil, al))
+	var tmpl seqio.SequenceAppender = linear.NewSeq("", nil, al)
+	if rng.Intn(2) == 0 { // the quality-carrying type as the template: letters arrive through its own AppendLetters
+		tmpl = linear.NewQSeq("", nil, al, alphabet.Sanger)
+	}
+	rd := fasta.NewReader(newSrc(rng, data), tmpl)
 	var out []seq.Sequence
 	for calls := 1; ; calls++ {
 		s, err := rd.Read()
